@@ -101,8 +101,9 @@ theorem new_eq (W : World Err) (pc : String) (pattrs : List (String × E)) (dept
     (h2 : lookupAttr "routes" pattrs = some (.seq .list routes)) :
     Options.RuntimeContext_new W (.obj pc pattrs) cls route fe eh (.obj cn attrs)
       = .ok (subCtx (.obj pc pattrs) depth routes cls fe eh route (.obj cn attrs)) := by
-  simp only [Options.RuntimeContext_new, Options.RuntimeContext_init]
-  obj_simp [getattr, setattr, lookupAttr, setAttrL, hr, hd, h1, h2, toList, iter, append, subCtx]
+  gen_obligation "C10_gen_enter_isolated (its lemma new_eq): the regenerated code (Utv.Gen) is no longer equal to the hand model here" by
+    simp only [Options.RuntimeContext_new, Options.RuntimeContext_init]
+    obj_simp [getattr, setattr, lookupAttr, setAttrL, hr, hd, h1, h2, toList, iter, append, subCtx]
 
 section attrs
 variable (c : Ctx) (depth : Int) (routes : List E) (cls fe eh : E)
